@@ -5,6 +5,10 @@ HERE = os.path.dirname(os.path.dirname(os.path.abspath(__file__)))
 PY = '/venv/bin/python'
 
 CHECKS = {
+ 'C10': dict(sec='2/C10', cat='exploration',
+   text='Each generated problem (polynomial/slow signal + noise, injected outliers, zero and negative weights, all breakpoint options, limits, maxiter 0-10, invvar=None, float32) is run as given, under a random permutation and with the non-positively weighted points deleted, and compared with an independent dense fit/reject/refit loop (mask exactly, curve within a conditioning-derived tolerance, number of fits equal); residuals within 1e-6 of a limit make a case undecided. A recorder on bspline.fit counts the refits the real loop performed.',
+   note='Trusts numpy lstsq and the reference loop transcription of the documented procedure (cumulative rejection); well-supported problems only; cases where the fit itself drops a breakpoint are counted and excluded.',
+   tech='runtime monitoring: boundary recorder + independent reference procedure + permutation/deletion metamorphic checks'),
  'C08': dict(sec='2/C08', cat='exploration',
    text='Every breakpoint option is driven with sorted/shuffled, clustered, duplicated, float32/float64 abscissae; the constructed knot vector is checked for monotonicity, coverage and padding, and value()/bsplvn()/mask are compared at data points, knots, midpoints and just-outside points with an independent Cox-de Boor recursion and with scipy BSpline, plus an exact order-permutation metamorphic check. Held on the constructions observed (one open finding: every-n with a single breakpoint).',
    note='Trusts the textbook recursion in vlib/refs/bspline_ref.py and scipy.interpolate.BSpline; values exactly on a discontinuity (breakpoint repeated more than order-1 times) are convention and not compared.',
